@@ -78,8 +78,40 @@ type Stats struct {
 	WallS        float64        `json:"wall_s"`
 }
 
+// knownSigs holds the signatures listed as status=known in known_findings.json
+// (path in $VERIF_KNOWN). A violation with such a signature is recorded once
+// and exploration continues, so that a different violation is still found.
+var knownSigs = loadKnown()
+
+func loadKnown() map[string]bool {
+	m := map[string]bool{}
+	p := os.Getenv("VERIF_KNOWN")
+	if p == "" {
+		return m
+	}
+	b, err := os.ReadFile(p)
+	if err != nil {
+		return m
+	}
+	var f struct {
+		Findings []struct {
+			Status    string `json:"status"`
+			Signature string `json:"signature"`
+		} `json:"findings"`
+	}
+	if json.Unmarshal(b, &f) == nil {
+		for _, x := range f.Findings {
+			if x.Status == "known" {
+				m[x.Signature] = true
+			}
+		}
+	}
+	return m
+}
+
 // Explorer is the preemption-bounded DFS with happens-before state caching.
 type Explorer struct {
+	known     map[string]*Violation
 	sc        *Scenario
 	bound     int
 	shard     int
@@ -201,8 +233,17 @@ func (e *Explorer) explore(prefix []int, depth int) {
 			}
 		}
 		if v != nil {
-			e.viol = v
-			return
+			if knownSigs[v.Signature()] {
+				if e.known == nil {
+					e.known = map[string]*Violation{}
+				}
+				if e.known[v.Signature()] == nil {
+					e.known[v.Signature()] = v
+				}
+			} else {
+				e.viol = v
+				return
+			}
 		}
 	}
 	for i := len(prefix); i < len(o.Points); i++ {
@@ -236,7 +277,7 @@ func (e *Explorer) explore(prefix []int, depth int) {
 }
 
 // Explore runs bounds 0..maxBound in turn (iterative context bounding).
-func Explore(sc *Scenario, maxBound, shard, nshards int, budget time.Duration, noCache bool) (*Stats, *Violation, string) {
+func Explore(sc *Scenario, maxBound, shard, nshards int, budget time.Duration, noCache bool) (*Stats, *Violation, string, []*Violation) {
 	e := &Explorer{sc: sc, shard: shard, nshards: nshards, visited: map[uint64]int8{}, noCache: noCache}
 	e.st.Outcomes = map[string]int64{}
 	e.st.BoundDone = -1
@@ -259,7 +300,11 @@ func Explore(sc *Scenario, maxBound, shard, nshards int, budget time.Duration, n
 	}
 	e.st.Exhaustive = e.st.BoundDone == maxBound
 	e.st.WallS = time.Since(start).Seconds()
-	return &e.st, e.viol, e.infraErr
+	var kn []*Violation
+	for _, v := range e.known {
+		kn = append(kn, v)
+	}
+	return &e.st, e.viol, e.infraErr, kn
 }
 
 // Replay re-executes one recorded schedule and returns the violation it
@@ -286,6 +331,7 @@ type WorkerResult struct {
 	Violation *Violation `json:"violation,omitempty"`
 	Infra     string     `json:"infra,omitempty"`
 	Confirmed int        `json:"confirmed"`
+	Known     []*Violation `json:"known_hits,omitempty"`
 }
 
 func mergeOutcomes(dst, src map[string]int64) {
